@@ -11,8 +11,8 @@ from ..core import Check, Outcome, crash, fail
 from ..onto import model as M
 from .c15 import gen_population
 
-LIST_OPS = ["assign", "assign_self", "iadd", "append", "extend", "insert", "setitem"]
-SET_OPS = ["assign", "assign_self", "ior", "add", "update"]
+LIST_OPS = ["assign", "assign_self", "assign_lazy", "iadd", "append", "extend", "insert", "setitem"]
+SET_OPS = ["assign", "assign_self", "assign_lazy", "ior", "add", "update"]
 COLLECTION_FIELDS = {
     "Org": [("part_of", "list", "Org"), ("linked_to", "list", "Org"), ("members", "set", "Agent"), ("has_part", "list", "Org")],
     "Agent": [("member_of", "list", "Org"), ("affiliated_with", "set", "Org")],
@@ -25,7 +25,7 @@ class C16(Check):
     rule = (
         "Hypothesis draws a population of the harness ontology and a history of 1-12 write operations on its list- "
         "and set-valued managed fields: assignment of a new list/set (repeated elements, any order), assignment of "
-        "the field to itself, += / |=, append, extend, insert, item assignment, add, update, and construction of a new object "
+        "the field to itself, assignment of a lazy iterable over the field (reversed(x.f), a generator), += / |=, append, extend, insert, item assignment, add, update, and construction of a new object "
         "whose field gets its first contents from the constructor - starting from "
         "whatever the previous operations and inferences left in the field. Oracle: a plain Python list/set model "
         "updated with the same operation gives the elements that must be in the field (order and repetitions for "
@@ -70,7 +70,7 @@ class C16(Check):
                 o = draw(st.integers(0, len(cls_of) - 1))
                 f, kind, rng = draw(st.sampled_from(COLLECTION_FIELDS[cls_of[o]]))
                 op = draw(st.sampled_from(LIST_OPS if kind == "list" else SET_OPS))
-                args = draw(st.lists(st.sampled_from(by_cls[rng]), min_size=0 if op in ("assign", "iadd", "ior", "extend", "update") else 1,
+                args = draw(st.lists(st.sampled_from(by_cls[rng]), min_size=0 if op in ("assign", "assign_lazy", "iadd", "ior", "extend", "update") else 1,
                                      max_size=3))
                 ops.append({"o": o, "f": f, "op": op, "args": args, "idx": draw(st.integers(0, 7))})
             return {"pop": pop, "ops": ops}
@@ -124,6 +124,15 @@ class C16(Check):
                     before = [M_label(inst, x) for x in field_now]
                     setattr(obj, f, getattr(obj, f))
                     model[(o, f)] = list(before) if kind == "list" else set(before)
+                elif name == "assign_lazy":
+                    # a new collection given as a lazy iterable that reads from the field itself
+                    before = [M_label(inst, x) for x in field_now]
+                    if kind == "list":
+                        setattr(obj, f, reversed(getattr(obj, f)))
+                        model[(o, f)] = list(reversed(before))
+                    else:
+                        setattr(obj, f, (e for e in getattr(obj, f)))
+                        model[(o, f)] = set(before)
                 elif name == "iadd":
                     before = [M_label(inst, x) for x in field_now]
                     tmp = getattr(obj, f)
@@ -168,7 +177,7 @@ class C16(Check):
             retracted |= {(o, f, t) for t in before_labels - after_labels}
             retracted -= {(o, f, t) for t in after_labels}
             classes_ = sorted(used)
-            self_ref = bool(used & {"assign_self", "iadd", "ior"})
+            self_ref = bool(used & {"assign_self", "assign_lazy", "iadd", "ior"})
             nontrivial = len(used) >= 3 and self_ref
             for (oo, ff), want in model.items():
                 got = lists.get((oo, ff), [])
@@ -189,7 +198,7 @@ class C16(Check):
                     lab = lambda tr: tuple(f"{classes[x]}{x}" if isinstance(x, int) else x for x in tr)
                     return fail(f"{name_}_missing_inference", f"after op {n} {op}: missing={sorted(map(lab, missing))[:5]}",
                                 classes=classes_, nontrivial=nontrivial, bucket=name)
-        self_ref = bool(used & {"assign_self", "iadd", "ior"})
+        self_ref = bool(used & {"assign_self", "assign_lazy", "iadd", "ior"})
         return Outcome(nontrivial=len(used) >= 3 and self_ref, classes=sorted(used))
 
 
